@@ -196,9 +196,21 @@ where
              s!"open=ok oparts={showIds (sortNat (rec_.map (·.id)))} rows={showRows (content rec_)} " ++
              s!"ikeys={showIds (valsOf (content rec_))}")
 
+/-- `sq=<op>`: the snapshot request lands while the publication of `<op>` is queued on the publication fence behind
+    a reader; the queued writer goes first, so the repaired procedure snapshots the state after `<op>`. The record
+    shows as `pin=` the state the driver saw when the request was issued (before the publication). -/
+def ttbQueued (s : TS) (tok : String) : TS × String :=
+  let before := showParts s.t
+  let s1 := tblMaint s ((tok.drop 3).toString)
+  let (s2, r) := ttbSnapshot s1 "s"
+  (s2, r.replace s!" pin={showParts s1.t} " s!" pin={before} ")
+
 def runTtb (ops : List String) : String :=
   let (s, recs) := ops.foldl (fun (acc : TS × List String) op =>
-    if op.startsWith "s" then
+    if op.startsWith "sq=" then
+      let (s', r) := ttbQueued acc.1 op
+      (s', acc.2 ++ [r])
+    else if op.startsWith "s" then
       let (s', r) := ttbSnapshot acc.1 op
       (s', acc.2 ++ [r])
     else (tblMaint acc.1 op, acc.2)) (({} : TS), [])
